@@ -18,6 +18,61 @@ def run(rep, prog, tier):
     r3(rep, prog)
     r4(rep, prog)
     r5(rep, prog)
+    r6(rep, prog)
+
+
+def r6(rep, prog):
+    """a typed arena map is read with the type it was written with"""
+    import re
+    R = "C17-R6"
+    rep.rule(R, "typed arena maps are read with the type they were written with: ColumnarWriter keeps one ArenaHashMap per kind of column; ArenaHashMap stores plain bytes and get::<V> / read::<V> / mutate_or_create::<V> reinterpret them (MemoryArena::slice is unchecked). For every map field, all typed accesses in columnar::writer name the same value type V. sort_order — which computes the doc id permutation of a sorted segment — is one of the readers: reading a date column's ColumnWriter (28 bytes) as a NumericalColumnWriter (32 bytes) relies on the unspecified field order of a repr(Rust) struct and reads past the entry")
+    acc = {}
+    n = 0
+    for fid, b in sorted(prog.bodies.items()):
+        if "tantivy_columnar::columnar::writer" not in fid or "::tests::" in fid or b.kind in ("const", "static", "promoted"):
+            continue
+        for bi, t in b.calls():
+            f = t.get("f") or ""
+            m = re.search(r"arena_hashmap::ArenaHashMap::(get|read|mutate_or_create|get_mut)$", f)
+            if not m or not t.get("ga"):
+                continue
+            fld = None
+            l = op_local(t["args"][0])
+            for _ in range(4):
+                if l is None:
+                    break
+                tr = trace_through(b, l)
+                flds = [x[2] for x in tr if x[0] == "field" and str(x[2]).endswith("_hash_map")]
+                if flds:
+                    fld = flds[0]
+                    break
+                last = tr[-1] if tr else None
+                if last and last[0] == "agg" and last[1] == "tuple":
+                    st = b.stmts(last[2])[last[3]]
+                    idx = next((x[1] for x in tr if x[0] == "field"), 0)
+                    l = op_local(st["o"][idx]) if idx < len(st.get("o", [])) else None
+                    continue
+                break
+            if fld is None:
+                continue
+            n += 1
+            ty = prog.crate_types[b.crate][t["ga"][0]]["s"] if isinstance(t["ga"][0], int) else str(t["ga"][0])
+            acc.setdefault(fld, {}).setdefault(ty, []).append((b, bi, m.group(1)))
+    rep.floor(R, "typed accesses to ColumnarWriter's arena maps resolved to a field", n, 20)
+    rep.floor(R, "arena map fields seen", len(acc), 6)
+    for fld, tys in sorted(acc.items()):
+        if len(tys) == 1:
+            rep.ok(R, "ColumnarWriter.%s is always accessed as %s" % (fld, short(next(iter(tys)))), "%d typed access(es)" % sum(len(v) for v in tys.values()))
+            continue
+        major = max(tys.items(), key=lambda kv: len(kv[1]))[0]
+        for ty, sites_ in sorted(tys.items()):
+            if ty == major:
+                continue
+            b, bi, how = sites_[0]
+            rep.check(False, R, "ColumnarWriter.%s is always accessed with one value type" % fld, "",
+                      "ColumnarWriter.%s holds `%s` values (%d typed accesses), but `%s` reads it with %s::<%s>: the bytes of the entry are reinterpreted as another struct. For the date columns, sort_order reads a 28-byte "
+                      "ColumnWriter as a 32-byte NumericalColumnWriter — it only sorts correctly while rustc happens to lay `column_writer` out first, and when the entry ends its 1 MiB arena page the unchecked read goes past "
+                      "the allocation" % (fld, short(major), len(tys[major]), b.id, how, short(ty)), site=site(b, bi))
 
 
 def r5(rep, prog):
